@@ -192,6 +192,13 @@ pub fn run(a: &Args) {
                 let _ = std::fs::remove_file(&pth);
                 if r != Some(false) || r2 != Some(false) { st.fail(format!("[C17] the first {k} bytes of {path} through from_pathbuf / from_file: {}", if r.is_none() || r2.is_none() { "panic" } else { "accepted" }), format!("{path} prefix {k}")); }
             }
+            // the same PATH holding a different file of the same length a moment later: what is loaded is what the file holds now
+            { let mut b2 = b.to_vec(); let at = b2.len() - 2; b2[at] ^= 0x5a;
+              let want2 = match parse_write(fmt, &b2) { Some(Ok((_, d, _))) => Some(d), _ => None };
+              let p1 = t("rewrite", &b); let first = dbg_of(&p1); std::fs::write(&p1, &b2).unwrap(); let second = dbg_of(&p1); let _ = std::fs::remove_file(&p1);
+              st.evaluations += 2;
+              if first != want { st.fail(format!("[C17] {path} copied to a temporary path loads differently"), format!("{path} rewrite 1")); }
+              if second != want2 { st.fail(format!("[C17] a path rewritten with a different file of the same length ({} bytes, one payload byte changed) still loads as the earlier file / differently from its content", b2.len()), format!("{path} rewrite 2")); } }
             st.bump("load sequences: rejected file then intact file (from_pathbuf / from_file)");
         }
         if a.thorough() { st.exhaustive.push(format!("every cut point of the first and last 8 KB of {path} ({} bytes){}", b.len(), if step == 1 { " and of everything in between" } else { " and evenly spread ones in between" })); }
